@@ -347,3 +347,148 @@ def check_mask_laws(sig, n, names, mode, m=0):
         a = run_real(_signatures.mask, a1[1], m) if a1[0] == 'return' else a1
         same(a, run_real(_signatures.mask, sig, n + m), 'law:mask_mask')
     return bad
+
+
+# --------------------------------------------------------------------------- embed
+def kw_passable_names(sig):
+    return [p.name for p in sig.parameters.values() if p.kind in (p.POSITIONAL_OR_KEYWORD, p.KEYWORD_ONLY)]
+
+
+def embed_expected(ov, iv, outer, uv, uk, n, ks):
+    if not real_accepts(ov, n, ks):
+        return False
+    sp = max(0, n - npos(outer))
+    kp = kw_passable_names(outer)
+    sk = tuple(k for k in ks if k not in kp)
+    return real_accepts(iv, sp if uv else 0, sk if uk else ())
+
+
+def outer_defaults_followed(outer, res):
+    od = {p.name for p in outer.parameters.values() if p.kind in (p.POSITIONAL_ONLY, p.POSITIONAL_OR_KEYWORD) and p.default is not p.empty}
+    seen = False
+    for p in res.parameters.values():
+        if p.kind not in (p.POSITIONAL_ONLY, p.POSITIONAL_OR_KEYWORD):
+            continue
+        if p.name in outer.parameters:
+            seen = seen or p.name in od
+        elif seen:
+            return True
+    return False
+
+
+def check_embed(outer, inner, uv, uk, outcome, maxn=None):
+    real_sigtools()
+    from sigtools import _signatures
+    bad = []
+    ov, iv = cview(outer), cview(inner)
+    names = all_names([outer, inner])
+    if maxn is None:
+        maxn = npos(outer) + npos(inner) + 2
+    shapes_ = list(call_shapes(names, maxn))
+    named = lambda s: {p.name for p in s.parameters.values() if p.kind not in (p.VAR_POSITIONAL, p.VAR_KEYWORD)}
+    shared = bool(named(outer) & named(inner))
+    rc = spec.role_consistent(PyOps, [ov, iv])
+    if outcome[0] == 'raise':
+        e = outcome[1]
+        if not isinstance(e, ValueError):
+            bad.append(('raises:only_ValueError:type', repr(e)))
+        elif not isinstance(e, _signatures.IncompatibleSignatures) and rc:
+            bad.append(('raises:only_ValueError:incompatible_on_role_consistent', repr(e)))
+        if isinstance(e, _signatures.IncompatibleSignatures) and not shared:
+            for n, ks in shapes_:
+                if embed_expected(ov, iv, outer, uv, uk, n, ks):
+                    bad.append(('raises:only_if_shared_name_or_no_call', 'call %r would succeed' % ((n, ks),)))
+                    break
+        return bad
+    res = outcome[1]
+    rv = cview(res)
+    odf = outer_defaults_followed(outer, res)
+    for n, ks in shapes_:
+        if not spec.noncolliding(PyOps, rv, [ov, iv], ccall(n, ks)):
+            continue
+        a = real_accepts(rv, n, ks)
+        e = embed_expected(ov, iv, outer, uv, uk, n, ks)
+        if a and not e:
+            bad.append(('post:sound', 'call %r' % ((n, ks),)))
+            break
+        if e and not a and not odf:
+            bad.append(('post:exact', 'call %r' % ((n, ks),)))
+            break
+    if not named(outer) and uv and uk and any(p.kind == p.VAR_POSITIONAL for p in outer.parameters.values()) \
+            and any(p.kind == p.VAR_KEYWORD for p in outer.parameters.values()):
+        if params_data(res) != params_data(inner) and all(p.annotation is p.empty for p in outer.parameters.values()):
+            bad.append(('post:bare_outer', '%s vs %s' % (res, inner)))
+    if not isinstance(res, _signatures.UpgradedSignature) or not all(isinstance(p, _signatures.UpgradedParameter) for p in res.parameters.values()) \
+            or '+depths' not in getattr(res, 'sources', {}):
+        bad.append(('post:wellformed:upgraded_with_depths', 'not upgraded'))
+    # metadata (valid when no non-star name is shared)
+    if not shared:
+        seq = {'pos': [], 'kwo': []}
+        for p in res.parameters.values():
+            side = 'outer' if p.name in outer.parameters and outer.parameters[p.name].kind == p.kind or p.name in named(outer) else 'inner'
+            o = (outer if side == 'outer' else inner).parameters.get(p.name)
+            if o is None:
+                o = outer.parameters.get(p.name) or inner.parameters.get(p.name)
+                if o is None:
+                    bad.append(('post:meta_outer_before_inner:every_parameter_from_an_input', p.name))
+                    continue
+            if p.kind in (p.POSITIONAL_ONLY, p.POSITIONAL_OR_KEYWORD):
+                seq['pos'].append(side)
+            elif p.kind == p.KEYWORD_ONLY:
+                seq['kwo'].append(side)
+            if not (p.kind == o.kind or (o.kind == o.POSITIONAL_OR_KEYWORD and p.kind in (p.POSITIONAL_ONLY, p.KEYWORD_ONLY))):
+                bad.append(('post:meta_kind_only_restricts', p.name))
+            if p.annotation != o.annotation and p.kind not in (p.VAR_POSITIONAL, p.VAR_KEYWORD):
+                bad.append(('post:meta_defaults', '%s annotation' % p.name))
+            if p.default is not p.empty and (o.default is o.empty or p.default != o.default):
+                bad.append(('post:meta_defaults', '%s default' % p.name))
+            if p.default is p.empty and o.default is not o.empty:
+                if side == 'inner' or p.kind not in (p.POSITIONAL_ONLY, p.POSITIONAL_OR_KEYWORD):
+                    bad.append(('post:meta_defaults', '%s default dropped' % p.name))
+                else:
+                    after = list(res.parameters.values())
+                    after = after[after.index(p) + 1:]
+                    if not any(q.kind in (q.POSITIONAL_ONLY, q.POSITIONAL_OR_KEYWORD) and q.default is q.empty and q.name not in named(outer) for q in after):
+                        bad.append(('post:meta_defaults', '%s outer default dropped without a required inner positional after it' % p.name))
+            if p.upgraded_annotation.source_value() != p.annotation:
+                bad.append(('post:ua_follows', p.name))
+        for k, lab in seq.items():
+            if 'inner' in lab and 'outer' in lab[lab.index('inner'):]:
+                bad.append(('post:meta_outer_before_inner', '%s: %r' % (k, lab)))
+    if res.return_annotation != outer.return_annotation or res.upgraded_return_annotation.source_value() != res.return_annotation:
+        bad.append(('post:ua_follows:return', 'return annotation'))
+    for c, d in check_sources_wf(res, fn_declares):
+        bad.append(('post:' + c, d))
+    if not shared:
+        for p in res.parameters.values():
+            if p.kind in (p.VAR_POSITIONAL, p.VAR_KEYWORD):
+                continue
+            src_sig = outer if p.name in outer.parameters else inner
+            exp = src_sig.sources.get(p.name, [])
+            got = res.sources.get(p.name, [])
+            if list(map(id, got)) != list(map(id, exp)):
+                bad.append(('post:sources_exact', '%s: %r vs %r' % (p.name, got, exp)))
+    dep = res.sources.get('+depths', {})
+    exp = dict(outer.sources.get('+depths', {}))
+    for f, d in inner.sources.get('+depths', {}).items():
+        exp[f] = min(exp.get(f, d + 1), d + 1)
+    if dep != exp:
+        bad.append(('post:depths', '%r vs %r' % (dep, exp)))
+    if any(res.sources is s.sources for s in (outer, inner)) or any(v2 is v1 for v1 in res.sources.values() for s in (outer, inner) for v2 in s.sources.values()):
+        bad.append(('frame:fresh_sources', 'shared provenance container'))
+    return bad
+
+
+def check_embed_fold(sigs, fl):
+    real_sigtools()
+    from sigtools import _signatures
+    if not spec.roles_kept(PyOps, [cview(s) for s in sigs]):
+        return []
+    a = run_real(_signatures.embed, *sigs, **fl)
+    b1 = run_real(_signatures.embed, sigs[0], sigs[1], **fl)
+    b = run_real(_signatures.embed, b1[1], sigs[2], **fl) if b1[0] == 'return' else b1
+    if a[0] != b[0]:
+        return [('law:fold:same_outcome', '%r vs %r' % (a, b))]
+    if a[0] == 'return' and params_data(a[1]) != params_data(b[1]):
+        return [('law:fold:parameters', '%s vs %s' % (a[1], b[1]))]
+    return []
